@@ -21,6 +21,8 @@ def run(ctx):
         # the same menu on ONE Data object, as a single command does (several inputs and requests share the caches)
         dscommon.run_family(ctx, "C01ClimNoObs", fmt="text", limit=300, fresh=False)
         dscommon.run_family(ctx, "C01Clim", fmt="text", limit=200, fresh=False)
+        # the same cases for every input also under a date / hour-of-day / time selection on files that list their times in different orders
+        dscommon.run_family(ctx, "C02Sel", fmt="netcdf", limit=150)
         ctx.exhaustive = False
     else:
         dscommon.run_family(ctx, "C01Full", fmt="text", timeout_s=1500)
@@ -33,5 +35,6 @@ def run(ctx):
         dscommon.run_family(ctx, "C01Clim", fmt="text", fresh=False)
         dscommon.run_family(ctx, "C01NoObs", fmt="text", fresh=False)
         dscommon.run_family(ctx, "C01Quick", fmt="netcdf")
+        dscommon.run_family(ctx, "C02Sel", fmt="netcdf")
         ctx.exhaustive = True
     par.clean_workdirs()
